@@ -78,6 +78,7 @@ structure Req where
   body : Bytes := []
   read : Bool := false
   statusSeen : Bool := false
+  streamed : Bool := false      -- `Ctx.bodyStream`: the request body comes from a reader
 deriving Repr, DecidableEq
 
 /-- frames the client writes -/
@@ -100,13 +101,20 @@ structure Conn where
   reqQueued : List (Nat × String) := []
   maxStreams : Nat := Gen.c_defaultConcurrentStreams
   maxFrameSize : Nat := Gen.c_defaultDataFrameSize
+  /- SETTINGS_HEADER_TABLE_SIZE as handed to the write loop: the last value the server sent, the smallest since the
+     write loop last applied them, whether there is anything to apply -/
   encTableSize : Nat := Gen.c_defaultHeaderTableSize
+  encTableMin : Nat := Gen.c_defaultHeaderTableSize
+  encTableSet : Bool := false
   srvTableSize : Nat := Gen.c_defaultHeaderTableSize   -- serverS.tableSize
   goAway : Bool := false
   stateClosed : Bool := false
   closeRef : Nat := 0
   currentWindow : Int := Gen.c_clientMaxWindow
   dec : Hpack.DecState := {}
+  /- the header block in progress: fragments received so far, the stream its HEADERS frame ends with END_STREAM (0: none) -/
+  hdrBlock : Bytes := []
+  hdrEndStream : Nat := 0
   rdBuf : Bytes := []
   lastErr : Option Err := none
   dead : Bool := false
@@ -115,9 +123,8 @@ structure Conn where
   /- queues towards the write loop, emptied within the step -/
   outQ : List OutFrame := []
   winTok : Bool := false
-  /- the write loop's HPACK encoder and `encTableSizeSeen`: the length of a HEADERS frame depends on them -/
+  /- the write loop's HPACK encoder: the length of a HEADERS frame depends on it -/
   enc : Hpack.EncState := {}
-  encSeen : Nat := Gen.c_defaultHeaderTableSize
   /- write failure (`failwrite`): the octets the transport still takes before every write fails; `none` = it never fails -/
   wbudget : Option Nat := none
 deriving Repr
@@ -280,7 +287,10 @@ def writeRequest (c : Conn) (r : ReqSpec) : Conn × List OutFrame :=
       | .none => false
       | _ => true
     let c := { c with nextID := id + 2, reqQueued := insertA c.reqQueued id r.tag, openStreams := c.openStreams + 1 }
-    let c := updReq c r.tag fun q => { q with sid := id, hasConn := true }
+    let streamed := match r.body with
+      | .stream _ _ _ => true
+      | _ => false
+    let c := updReq c r.tag fun q => { q with sid := id, hasConn := true, streamed := streamed }
     let hd := OutFrame.headers id (!hasBody) (requestFields r)
     match r.body with
     | .none => (c, [hd])
@@ -331,39 +341,84 @@ def fieldStep (r : Req) (regularSeen statusSeen : Bool) (k v : Bytes) : Option (
   else if k == Gen.s_StringContentType then some ({ r with ct := some v }, true, statusSeen)
   else some ({ r with hdrs := r.hdrs ++ [(k, v)] }, true, statusSeen)
 
-/-- `readHeader` on one frame's fragment -/
-def readHeader : Nat → Hpack.DecState → Req → Bool → Bool → Bytes → Hpack.DecState × Req × Option Err
-  | 0, st, r, _, _, _ => (st, r, some .hpack)
-  | fuel + 1, st, r, regularSeen, statusSeen, b =>
+/-- `readHeader` on a complete header block; `nf` counts the fields decoded so far -/
+def readHeader : Nat → Hpack.DecState → Req → Bool → Bool → Nat → Bytes → Hpack.DecState × Req × Option Err
+  | 0, st, r, _, _, _, _ => (st, r, some .hpack)
+  | fuel + 1, st, r, regularSeen, statusSeen, nf, b =>
     if b.isEmpty then (st, r, none) else
-    match nextField st b with
+    match nextField st nf b with
     | .idxMiss st' => (st', r, some (.h2err Gen.c_FlowControlError))
     | .err st' => (st', r, some .hpack)
     | .done st' => (st', r, none)
     | .field st' k v rest =>
       match fieldStep r regularSeen statusSeen k v with
       | none => (st', r, some .badMsg)
-      | some (r', rs, ss) => readHeader fuel st' r' rs ss rest
+      | some (r', rs, ss) => readHeader fuel st' r' rs ss (nf + 1) rest
 
 def queueOut (c : Conn) (f : OutFrame) : Conn := { c with outQ := c.outQ ++ [f] }
+
+/-- `consumeConnWindow`: `n` octets of DATA come out of the connection receive window, which is topped back
+up to its maximum once less than half is left. The read loop calls it for every DATA frame, before it
+looks for the request waiting on the stream. -/
+def consumeConnWindow (c : Conn) (n : Nat) : Conn :=
+  let cur := c.currentWindow - n
+  if cur < maxWindow / 2 then
+    queueOut { c with currentWindow := maxWindow } (.windowUpdate 0 (maxWindow - cur).toNat)
+  else { c with currentWindow := cur }
 
 /-- `readStream`: what one frame does to the request waiting on its stream -/
 def readStream (c : Conn) (tag : String) (r : Req) (f : Frame.Frame) : Conn × Option Err :=
   match f.body with
   | .headers _ _ _ frag | .continuation _ frag =>
-    let (st, r', e) := readHeader (frag.length + 1) c.dec r false false frag
-    (updReq { c with dec := st } tag fun _ => r', e)
+    -- a header block is decoded when END_HEADERS says it is whole; until then its fragments are kept
+    let blk := (if f.typ == Gen.c_FrameHeaders then [] else c.hdrBlock) ++ frag
+    if Frame.hasFlag f.flags Gen.c_FlagEndHeaders then
+      let (st, r', e) := readHeader (blk.length + 1) c.dec r false false 0 blk
+      (updReq { c with dec := st, hdrBlock := [] } tag fun _ => r', e)
+    else ({ c with hdrBlock := blk }, none)
   | .rstStream code => (c, some (.rst code))
   | .data _ d =>
-    let cur := c.currentWindow - f.length
-    let c := { c with currentWindow := cur }
-    let c := if d.length != 0 then
-        queueOut (updReq c tag fun q => { q with body := q.body ++ d }) (.windowUpdate f.stream f.length)
-      else c
-    if cur < maxWindow / 2 then
-      (queueOut { c with currentWindow := maxWindow } (.windowUpdate 0 (maxWindow - cur).toNat), none)
-    else (c, none)
+    -- the data goes to the response; the stream is credited with the whole frame, padding included
+    let c := if d.length != 0 then updReq c tag fun q => { q with body := q.body ++ d } else c
+    (if f.length != 0 then queueOut c (.windowUpdate f.stream f.length) else c, none)
   | _ => (c, none)
+
+/-- `dispatch`, the bookkeeping of END_STREAM on header blocks: a HEADERS frame records the stream it ends (0: none) -/
+def noteHeaders (c : Conn) (f : Frame.Frame) : Conn :=
+  if f.typ == Gen.c_FrameHeaders then
+    { c with hdrEndStream := if Frame.hasFlag f.flags Gen.c_FlagEndStream then f.stream else 0 }
+  else c
+
+/-- the frame completes a header block -/
+def endsBlock (f : Frame.Frame) : Bool :=
+  (f.typ == Gen.c_FrameHeaders || f.typ == Gen.c_FrameContinuation) && Frame.hasFlag f.flags Gen.c_FlagEndHeaders
+
+/-- whether the stream ends with this frame. END_STREAM is defined for HEADERS and DATA; the bit means nothing on
+any other frame type. On HEADERS it takes effect when the header block is complete: at the frame that carries
+END_HEADERS, if that frame is on the stream the HEADERS frame was for. (`c` is the state after `noteHeaders`.) -/
+def endsStream (c : Conn) (f : Frame.Frame) : Bool :=
+  if endsBlock f then c.hdrEndStream == f.stream
+  else Frame.hasFlag f.flags Gen.c_FlagEndStream && f.typ == Gen.c_FrameData
+
+/-- the head of `dispatch`: END_STREAM bookkeeping. Returns the state `readStream` starts from and whether the stream
+ends with this frame; once a block is complete its END_STREAM is spent. -/
+def prepare (c : Conn) (f : Frame.Frame) : Conn × Bool :=
+  let c := noteHeaders c f
+  (if endsBlock f then { c with hdrEndStream := 0 } else c, endsStream c f)
+
+/-- the tail of `dispatch`, after `readStream`: the request is finished when the frame failed it or ended the
+stream (a response that ends without ever having carried :status is malformed). Bool = the read loop stops. -/
+def settle (c : Conn) (tag : String) (sid : Nat) (err : Option Err) (endS : Bool) : Conn × Bool :=
+  let err := match err, getReq c tag with
+    | none, some r' => if endS && !r'.statusSeen then some Err.badMsg else none
+    | e, _ => e
+  let c := match err with
+    | none => if endS then finish c tag sid .ok else c
+    | some e => finish c tag sid e
+  let stop := match err with
+    | some e => e.isFlowControl
+    | none => false
+  (c, stop)
 
 /-- `dispatch`. Returns the new state and whether the read loop stops. -/
 def dispatch (c : Conn) (f : Frame.Frame) : Conn × Bool :=
@@ -375,20 +430,9 @@ def dispatch (c : Conn) (f : Frame.Frame) : Conn × Bool :=
     | some r =>
       if r.done then ({ c with reqQueued := eraseA c.reqQueued f.stream }, false)
       else
+        let (c, endS) := prepare c f
         let (c, err) := readStream c tag r f
-        -- END_STREAM is defined for HEADERS and DATA; the bit means nothing on any other frame type
-        let endS := Frame.hasFlag f.flags Gen.c_FlagEndStream && (f.typ == Gen.c_FrameHeaders || f.typ == Gen.c_FrameData)
-        -- a response that ends without ever having carried :status is malformed
-        let err := match err, getReq c tag with
-          | none, some r' => if endS && !r'.statusSeen then some Err.badMsg else none
-          | e, _ => e
-        let c := match err with
-          | none => if endS then finish c tag f.stream .ok else c
-          | some e => finish c tag f.stream e
-        let stop := (match err with
-          | some e => e.isFlowControl
-          | none => false) || (c.stateClosed && f.stream == c.closeRef)
-        (c, stop)
+        settle c tag f.stream err endS
 
 /-- `Settings.Read` of a frame's pairs on top of the values held in `serverS`: a setting the frame does
 not mention keeps its value -/
@@ -401,12 +445,54 @@ def applyPairs (c : Conn) : List (Nat × Nat) → Conn
       else c
     applyPairs c ps
 
+/-- `handleSettings`, the loop over the frame's payload: every SETTINGS_HEADER_TABLE_SIZE value is recorded for the
+write loop, the smallest as well as the last (the server's decoder has shrunk its table to the smallest on the way) -/
+def noteTableSizes (c : Conn) : List (Nat × Nat) → Conn
+  | [] => c
+  | (k, v) :: ps =>
+    let c := if k == Gen.c_HeaderTableSize then
+        { c with encTableMin := if !c.encTableSet || v < c.encTableMin then v else c.encTableMin
+                 encTableSize := v, encTableSet := true }
+      else c
+    noteTableSizes c ps
+
 /-- `handleSettings` -/
 def handleSettings (c : Conn) (s : Frame.SettingsVal) : Conn :=
   let c := applyPairs c s.pairs
-  let c := { c with encTableSize := c.srvTableSize }
+  let c := noteTableSizes c s.pairs
   let c := if s.hasWindowSize then applyInitialWindow c s.windowSize else c
   queueOut c .settingsAck
+
+/-- what a request on a stream above the last-stream-id of GOAWAY is resolved with: the server has not processed it and
+never will, so it may go out again on another connection, unless its body came from a reader, which cannot produce
+it a second time -/
+def goAwayErr (r : Req) : Err := if r.streamed then .h2err Gen.c_RefusedStreamError else .connClosed
+
+/-- `afterGoAway` on one stream above last-stream-id: the request is finished with `goAwayErr`; one the caller has
+taken back only leaves the table -/
+def refuse (c : Conn) (sid : Nat) (tag : String) : Conn :=
+  match getReq c tag with
+  | none => { c with reqQueued := eraseA c.reqQueued sid }
+  | some r =>
+    if r.done then { c with reqQueued := eraseA c.reqQueued sid }
+    else finish c tag sid (goAwayErr r)
+
+def refuseAbove (c : Conn) : List (Nat × String) → Conn
+  | [] => c
+  | (sid, tag) :: rest => refuseAbove (if sid > c.closeRef then refuse c sid tag else c) rest
+
+/-- `afterGoAway`: run by the read loop after every frame once GOAWAY(last > 0) has come. The requests above `closeRef`
+are failed at once; Bool = no request is left waiting, the read loop stops. -/
+def afterGoAway (c : Conn) : Conn × Bool :=
+  (refuseAbove c c.reqQueued, c.reqQueued.all fun p => p.1 > c.closeRef)
+
+/-- `dispatch`, then `afterGoAway` if the server has sent GOAWAY with a last stream -/
+def dispatchLoop (c : Conn) (f : Frame.Frame) : Conn × Bool :=
+  let (c, stop) := dispatch c f
+  if c.stateClosed then
+    let (c, idle) := afterGoAway c
+    (c, stop || idle)
+  else (c, stop)
 
 /-- one frame through `readNext` and the body of `readLoop`'s loop. Bool = the read loop ends. -/
 def rdFrame (c : Conn) (f : Frame.Frame) : Conn × Bool :=
@@ -418,13 +504,14 @@ def rdFrame (c : Conn) (f : Frame.Frame) : Conn × Bool :=
     | .goAway last _ _ =>
       let c := { c with goAway := true }
       if last == 0 then (setLastErr c .goaway, true)
-      else ({ c with closeRef := last, stateClosed := true }, false)
+      else afterGoAway { c with closeRef := last, stateClosed := true }
     | _ => (c, false)
   else
     match f.body with
     | .pushPromise _ _ _ => (setLastErr c (.h2conn Gen.c_ProtocolError), true)
-    | .windowUpdate inc => dispatch (addWindow c f.stream inc) f
-    | _ => dispatch c f
+    | .windowUpdate inc => dispatchLoop (addWindow c f.stream inc) f
+    | .data _ _ => dispatchLoop (consumeConnWindow c f.length) f
+    | _ => dispatchLoop c f
 
 def rdFrames : List RdFrame → Conn → Conn × Bool
   | [], c => (c, false)
@@ -477,14 +564,19 @@ the octets it would write exceed the budget, and then the connection is dead wit
 everywhere. The one thing that is not determined is what the read loop does with frames it still has
 buffered while the write loop is on its way out: `racyAfterEnqueue`. -/
 
-/-- the HEADERS frame's block: `writeRequest` applies a changed SETTINGS_HEADER_TABLE_SIZE, then encodes the
-five fixed fields with indexing and the rest without. Returns the length of the block. -/
+/-- `writeRequest` tells its encoder about the table sizes the server has asked for since the last request: the
+smallest, then the last (`SetMaxTableSize` twice; the encoder announces both at the start of the block) -/
+def applyTable (c : Conn) : Hpack.EncState :=
+  if c.encTableSet then (c.enc.setMax c.encTableMin).setMax c.encTableSize else c.enc
+
+/-- the HEADERS frame's block: `writeRequest` applies the table sizes, then encodes the five fixed fields with
+indexing and the rest without. Returns the length of the block. -/
 def encodeHeaders (c : Conn) (fields : List (Bytes × Bytes)) : Conn × Nat :=
-  let enc := if c.encTableSize != c.encSeen then c.enc.setMax c.encTableSize else c.enc
+  let enc := applyTable c
   let acc := fields.foldl (fun (acc : Hpack.EncState × Nat × Nat) kv =>
       let (st', bs) := Hpack.Enc.append acc.1 { name := kv.1, value := kv.2 } (acc.2.2 < 5)
       (st', acc.2.1 + bs.length, acc.2.2 + 1)) (enc, 0, 0)
-  ({ c with enc := acc.1, encSeen := c.encTableSize }, acc.2.1)
+  ({ c with enc := acc.1, encTableSet := false }, acc.2.1)
 
 /-- octets of the frames a step writes (frame header of 9 octets included) -/
 def wireBytes (c : Conn) : List OutFrame → Conn × Nat
